@@ -125,7 +125,7 @@ impl Prop for C04 {
             for (_, ts) in crate::corpus::lines() {
                 pool.push(crate::corpus::render(&ts, &crate::lit::Conv::default_lib()));
             }
-            for extra in ["3 m to mm", "250 mm to m", "2 inch to m", "3 m to inch", "0 kb to byte", "5 kb to byte", "12 january 2019 + 3 days", "today + 1 week", "0xFF + 1", "255 to binary", "11:30 EST to CET", "11:30 + 13 hours", "1 hour 30 minutes as minutes", "20% off 150", "$200 - 10%", "10 usd + 10 aud", "10 aud to usd", "x = 3 km\nx to m", "1/1/2020 to 3/1/2020", "1619098200 to date"] {
+            for extra in ["3 m to mm", "250 mm to m", "3 g to mg", "3 mb to bit", "2 dm to cm", "2 dg to cg", "2 inch to m", "3 m to inch", "0 kb to byte", "5 kb to byte", "12 january 2019 + 3 days", "today + 1 week", "0xFF + 1", "255 to binary", "11:30 EST to CET", "11:30 + 13 hours", "1 hour 30 minutes as minutes", "20% off 150", "$200 - 10%", "10 usd + 10 aud", "10 aud to usd", "x = 3 km\nx to m", "1/1/2020 to 3/1/2020", "1619098200 to date"] {
                 pool.push(extra.to_string());
             }
             pool.sort();
